@@ -188,6 +188,17 @@ def space_axioms(n):
     ]
 
 
+def _has_quant(t, _seen=None):
+    if z3.is_quantifier(t):
+        return True
+    if _seen is None:
+        _seen = set()
+    if t.get_id() in _seen:
+        return False
+    _seen.add(t.get_id())
+    return any(_has_quant(c, _seen) for c in t.children())
+
+
 class Path:
     """State of one explored path."""
 
@@ -209,6 +220,7 @@ class Path:
         self.unfolded: set = set()
         self.trace_lines: list[int] = []
         self.dead = False
+        self._dirty = False
 
     # -- fresh symbols (deterministic per path so re-execution gives identical terms)
     def fresh(self, base: str, sort):
@@ -220,10 +232,18 @@ class Path:
 
     def assume(self, cond, check=True):
         if z3.is_true(cond):
-            return
-        self.pc.append(cond)
-        self.solver.add(cond)
-        if check:
+            if check and self._dirty:
+                pass
+            else:
+                return
+        else:
+            self.pc.append(cond)
+            # quantified facts stay out of the (cheap) feasibility solver: they rarely prune and make it slow
+            if not _has_quant(cond):
+                self.solver.add(cond)
+                self._dirty = True
+        if check and self._dirty:
+            self._dirty = False
             r = self.solver.check()
             if r == z3.unsat:
                 self.dead = True
@@ -231,7 +251,8 @@ class Path:
 
     def add_axiom(self, ax):
         self.axioms.append(ax)
-        self.solver.add(ax)
+        if not _has_quant(ax):
+            self.solver.add(ax)
 
     def entails_quick(self, cond) -> bool:
         """pc => cond, decided cheaply (unknown counts as no)."""
